@@ -26,8 +26,20 @@ def real_builder_executor(chk, cfg=None):
 def run(chk):
     K = 3 if chk.tier == 'quick' else 4
     NAPPS = 2 if chk.tier == 'quick' else 3
+    builder_logic(chk, K, NAPPS)
+    wire_conversion(chk)
+    serde_structure(chk)
+    c09.wire_mapping(chk, real_builder_executor(chk, dict(shape=lambda o_, t: 1)))
+    chk.bounds.update({'add_* calls': K, 'apps': NAPPS})
+    chk.assumptions += [
+        'the bytes serde_json renders and hyper sends are outside; the check covers the value handed to serde (struct contents) and the derive attributes (field names, skip rules) on the source text',
+        'HeaderName::as_str returns the standard name of the constant; logging off',
+    ]
+
+
+def builder_logic(chk, K, NAPPS, name='builder-logic'):
     ex = real_builder_executor(chk)
-    o = chk.ob('builder-logic', 'for every sequence of up to %d add_update_check / add_ping / add_event calls over %d apps with arbitrary (possibly equal) ids: entries are unique by id in first-insertion order and keep the first insertion\'s app data; headers are content type, updater name, fg iff on-demand, first entry\'s app id; request fields come from config / params / the ids set; each app entry maps to the wire app with update-check flags from params, events in order, ping ad = rd = stored day; build leaves the builder unchanged' % (K, NAPPS))
+    o = chk.ob(name, 'for every sequence of up to %d add_update_check / add_ping / add_event calls over %d apps with arbitrary (possibly equal) ids: entries are unique by id in first-insertion order and keep the first insertion\'s app data; headers are content type, updater name, fg iff on-demand, first entry\'s app id; request fields come from config / params / the ids set; each app entry maps to the wire app with update-check flags from params, events in order, ping ad = rd = stored day; build leaves the builder unchanged' % (K, NAPPS))
     D = Decide(chk, ex, o, cross=False)
     fns = dict((n, find_method(ex, 'RequestBuilder::' + n)) for n in ('new', 'add_update_check', 'add_ping', 'add_event', 'session_id', 'request_id', 'build_intermediate'))
     st0 = State()
@@ -96,14 +108,6 @@ def run(chk):
     if f and f[0] == 'violated':
         o.key = o.name
     chk.absorb(ex)
-    wire_conversion(chk)
-    serde_structure(chk)
-    c09.wire_mapping(chk, real_builder_executor(chk, dict(shape=lambda o_, t: 1)))
-    chk.bounds.update({'add_* calls': K, 'apps': NAPPS})
-    chk.assumptions += [
-        'the bytes serde_json renders and hyper sends are outside; the check covers the value handed to serde (struct contents) and the derive attributes (field names, skip rules) on the source text',
-        'HeaderName::as_str returns the standard name of the constant; logging off',
-    ]
 
 
 def spec_entries(ex, st, seq):
@@ -340,8 +344,11 @@ if __name__ == '__main__':
     chk = Check('C15')
     try:
         run(chk)
-    except Inconclusive as e:
+    except Exception as e:          # nothing the engine cannot digest may look like a verdict: exit 2
+        import traceback
         o = chk.ob('engine', 'executor could not interpret the code')
         o.status = 'inconclusive'
-        o.detail = str(e)
+        o.detail = ('%s: %s' % (type(e).__name__, e)) if not isinstance(e, Inconclusive) else str(e)
+        if not isinstance(e, Inconclusive):
+            o.detail += ' | ' + ' <- '.join(l.strip() for l in traceback.format_exc().strip().split('\n')[-7:-1:2])
     sys.exit(chk.finish())
